@@ -1052,6 +1052,33 @@ func ruleIMP1(c *Ctx) []Ob {
 	setAll := c.lookupMethod("document", "Document", "SetAll")
 	n := 0
 	bad := ""
+	// the import and the root-package helpers it calls (not the shared insert path)
+	var scope []*ssa.Function
+	for f := range c.staticReach(imp) {
+		if c.pkgRel(f) == "" && c.eff(f)&(EffTxSet|EffTxGet|EffTxDelete|EffCursor) == 0 {
+			scope = append(scope, f)
+		}
+	}
+	scope = append(scope, imp)
+	sort.Slice(scope, func(i, j int) bool { return c.fname(scope[i]) < c.fname(scope[j]) })
+	for _, sf := range scope {
+		if sf == imp {
+			continue
+		}
+		allCalls(sf, func(call ssa.CallInstruction) {
+			g := staticCallee(call)
+			if g == nil {
+				return
+			}
+			g = c.declared(g)
+			if g == setAll {
+				bad = relPath(c, call.Pos())
+			}
+			if g == c.lookupFunc("document", "NewDocumentOf") {
+				n++
+			}
+		})
+	}
 	allCalls(imp, func(call ssa.CallInstruction) {
 		g := staticCallee(call)
 		if g == nil {
@@ -2844,12 +2871,56 @@ func ruleADP9(c *Ctx) []Ob {
 		recv := recvNamed(fn)
 		cut := map[*ssa.BasicBlock]bool{}
 		field := ""
+		// setter helpers: methods of the same type that assign a field of it on every path
+		setterField := func(g *ssa.Function) string {
+			if g == nil || len(g.Blocks) == 0 || recvNamed(g) == nil || recv == nil || !types.Identical(recvNamed(g), recv) {
+				return ""
+			}
+			gcut := map[*ssa.BasicBlock]bool{}
+			f := ""
+			for _, b := range g.Blocks {
+				for _, in := range b.Instrs {
+					if st, ok := in.(*ssa.Store); ok {
+						if _, ff, n := fieldOfAddr(st.Addr); n != nil && types.Identical(n, recv) {
+							gcut[b] = true
+							f = ff
+						}
+					}
+				}
+			}
+			if f == "" {
+				return ""
+			}
+			seen := map[*ssa.BasicBlock]bool{}
+			stack := []*ssa.BasicBlock{g.Blocks[0]}
+			for len(stack) > 0 {
+				x := stack[len(stack)-1]
+				stack = stack[:len(stack)-1]
+				if seen[x] || gcut[x] {
+					continue
+				}
+				seen[x] = true
+				if _, isRet := x.Instrs[len(x.Instrs)-1].(*ssa.Return); isRet {
+					return "" // a path through the helper without the assignment
+				}
+				stack = append(stack, x.Succs...)
+			}
+			return f
+		}
 		for _, b := range fn.Blocks {
 			for _, in := range b.Instrs {
 				if st, ok := in.(*ssa.Store); ok {
 					if _, f, n := fieldOfAddr(st.Addr); n != nil && recv != nil && types.Identical(n, recv) {
 						cut[b] = true
 						field = f
+					}
+				}
+				if call, ok := in.(*ssa.Call); ok {
+					if g := staticCallee(call); g != nil && c.IsLib(c.declared(g)) {
+						if f := setterField(c.declared(g)); f != "" {
+							cut[b] = true
+							field = f
+						}
 					}
 				}
 			}
@@ -4122,8 +4193,8 @@ func ruleADP10(c *Ctx) []Ob {
 			if !dependsOnLen(cond, map[ssa.Value]bool{}) {
 				return
 			}
-			other := edge{e.From, !e.Branch}
-			if guardedBy(fn, bcall.Block(), []edge{e}) || guardedBy(fn, bcall.Block(), []edge{other}) {
+			// one outcome of the test keeps the target away from the iterator
+			if e.to() != bcall.Block() && !reachableFrom(e.to(), true)[bcall.Block()] {
 				handled = true
 			}
 		})
